@@ -152,11 +152,14 @@ def _queued_writes(e: Engine, g) -> List[Node]:
                                                    ast.AugAssign)):
             tg = n.ast.targets if isinstance(n.ast, ast.Assign) \
                 else [n.ast.target]
-            for t in tg:
-                if path_of(t, n.frame) == 'self.queued' or (
-                        isinstance(t, ast.Subscript) and
-                        path_of(t.value, n.frame) == 'self.queued'):
-                    out.append(n)
+            for t0 in tg:
+                for t in (t0.elts if isinstance(t0, (ast.Tuple, ast.List))
+                          else [t0]):
+                    if path_of(t, n.frame) == 'self.queued' or (
+                            isinstance(t, ast.Subscript) and
+                            path_of(t.value, n.frame) == 'self.queued'):
+                        if n not in out:
+                            out.append(n)
         elif n.kind == 'call':
             if any(path_of(a, n.frame) == 'self.queued'
                    for a in n.ast.args) and e.call_name(n) in (
@@ -168,6 +171,21 @@ def _queued_writes(e: Engine, g) -> List[Node]:
                                            'pop', 'remove', 'clear'):
                 out.append(n)
     return out
+
+
+def _queued_value(w: Node):
+    """the expression a timetable write assigns to self.queued (the paired
+    element of a tuple assignment)"""
+    a = w.ast
+    if isinstance(a, ast.Assign):
+        for t0 in a.targets:
+            if isinstance(t0, (ast.Tuple, ast.List)) and \
+                    isinstance(a.value, ast.Tuple) and \
+                    len(t0.elts) == len(a.value.elts):
+                for t, v in zip(t0.elts, a.value.elts):
+                    if path_of(t, w.frame) == 'self.queued':
+                        return v
+    return getattr(a, 'value', None)
 
 
 def _ids_write(e: Engine, n: Node) -> bool:
@@ -183,7 +201,7 @@ def _ids_write(e: Engine, n: Node) -> bool:
 
 
 def q2(e: Engine, rep: Report):
-    c = e.p.cls(QUEUE)
+    c = common.merged_class(e, QUEUE)
     for mname, m in sorted(c.methods.items()):
         if 'queued' not in ast.unparse(m.node):
             continue
@@ -226,11 +244,13 @@ def q2(e: Engine, rep: Report):
 def q3(e: Engine, rep: Report):
     for meth, src in (('_load_all', 'load'), ('_wait_store', 'wait')):
         ctx = e.method_ctx(QUEUE, meth)
-        g = e.build(ctx)
+        g = e.build(ctx, inline=common.queue_inline(e), max_depth=3)
         where = ctx.func.qname
         rep.functions.add(where)
+        def iter_text(n):
+            return ast.unparse(common.origin(g, n.ast.iter, n.frame)[0])
         loops = [n for n in g.of_kind('iter') if isinstance(n.ast, ast.For)
-                 and ('.%s()' % src) in ast.unparse(n.ast.iter)]
+                 and ('.%s()' % src) in iter_text(n)]
         rep.evaluations += 1
         if not loops:
             rep.bad('Q3', where, 'iterates over store.%s()' % src,
@@ -259,7 +279,8 @@ def q3(e: Engine, rep: Report):
                     'twice)' if o.what else '', o.loc, o.witness,
                     o.nontrivial, o.reason)
     ctx = e.method_ctx(QUEUE, '_add_queued')
-    g = e.build(ctx, raises=lambda b, n, r: set())
+    g = e.build(ctx, raises=lambda b, n, r: set(),
+                inline=common.queue_inline(e), max_depth=3)
     where = ctx.func.qname
     ws = _queued_writes(e, g)
     after = dataflow.must_events_after(
@@ -280,7 +301,7 @@ def q3(e: Engine, rep: Report):
 
 def q4(e: Engine, rep: Report):
     ctx = e.method_ctx(QUEUE, '_retry_later')
-    g = e.build(ctx)
+    g = e.build(ctx, inline=common.queue_inline(e), max_depth=3)
     where = ctx.func.qname
     rep.functions.add(where)
 
@@ -353,7 +374,27 @@ def _snapshot_vars(g, whole_only=False):
                     val.slice.lower is None and val.slice.upper is not None \
                     and not whole_only:
                 out[p] = (ast.unparse(val.slice.upper), n)
+            elif _takewhile_of_queued(val, n.frame) is not None and \
+                    isinstance(t, ast.Name) and not whole_only:
+                # the longest prefix satisfying a predicate: its length is
+                # the cut
+                out[p] = ('len(%s)' % t.id, n)
     return out
+
+
+def _takewhile_of_queued(val, frame):
+    """the lambda of `list(takewhile(lambda x: ..., self.queued))` (or the
+    bare takewhile call), else None"""
+    v = val
+    if isinstance(v, ast.Call) and isinstance(v.func, ast.Name) and \
+            v.func.id in ('list', 'tuple') and len(v.args) == 1:
+        v = v.args[0]
+    if isinstance(v, ast.Call) and \
+            ast.unparse(v.func).rpartition('.')[2] == 'takewhile' and \
+            len(v.args) == 2 and isinstance(v.args[0], ast.Lambda) and \
+            path_of(v.args[1], frame) == 'self.queued':
+        return v.args[0]
+    return None
 
 
 def q5(e: Engine, rep: Report):
@@ -364,7 +405,8 @@ def q5(e: Engine, rep: Report):
     list) and each element of that list is dispatched exactly once."""
     for meth in ('_check_ready', 'flush'):
         ctx = e.method_ctx(QUEUE, meth)
-        g = e.build(ctx, raises=lambda b, n, r: set())
+        g = e.build(ctx, raises=lambda b, n, r: set(),
+                    inline=common.queue_inline(e), max_depth=3)
         where = ctx.func.qname
         rep.functions.add(where)
         ws = [n for n in _queued_writes(e, g) if n.kind == 'stmt']
@@ -380,13 +422,24 @@ def q5(e: Engine, rep: Report):
                   and 'self.queued' in ast.unparse(n.ast.iter) and any(
                       sc.kind == 'loop' and sc.ast is n.ast
                       for s in spawns for sc in s.scopes)]
+        def iter_path(n):
+            # what is iterated, seen through a helper that hands it back
+            x, fr = common.origin(g, n.ast.iter, n.frame,
+                                  follow_locals=False)
+            # an element-wise projection `[f(x) for x in xs]` of the list
+            # has one element per entry
+            if isinstance(x, (ast.ListComp, ast.GeneratorExp)) and \
+                    len(x.generators) == 1 and not x.generators[0].ifs:
+                x, fr = common.origin(g, x.generators[0].iter, fr,
+                                      follow_locals=False)
+            return path_of(x, fr)
         local = [n for n in g.of_kind('iter') if isinstance(n.ast, ast.For)
-                 and path_of(n.ast.iter, n.frame) in snaps and any(
+                 and iter_path(n) in snaps and any(
                      sc.kind == 'loop' and sc.ast is n.ast
                      for s in spawns for sc in s.scopes)]
         if local:
             lp = local[0]
-            upper, defn = snaps[path_of(lp.ast.iter, lp.frame)]
+            upper, defn = snaps[iter_path(lp)]
             counts = common.per_iteration_counts(
                 g, lp, lambda n: 1 if _spawns_dequeue(e, n) else 0)
             rep.check(counts == frozenset([1]), 'Q5', where,
@@ -396,7 +449,7 @@ def q5(e: Engine, rep: Report):
                       'removed list')
             # the kept part is the complement of the removed part
             for w in ws:
-                v = w.ast.value
+                v = _queued_value(w)
                 if upper is None:
                     ok = isinstance(v, ast.List) and not v.elts
                     what = 'the whole list was taken: the timetable is ' \
@@ -497,7 +550,8 @@ def common_reach_without_done(g, dst, lp) -> bool:
 
 def q6(e: Engine, rep: Report):
     ctx = e.method_ctx(QUEUE, '_check_ready')
-    g = e.build(ctx, raises=lambda b, n, r: set())
+    g = e.build(ctx, raises=lambda b, n, r: set(),
+                    inline=common.queue_inline(e), max_depth=3)
     fx = e.facts(g)
     where = ctx.func.qname
     loops = [n for n in g.of_kind('iter') if isinstance(n.ast, ast.For) and
@@ -506,7 +560,9 @@ def q6(e: Engine, rep: Report):
     now = '%s#%d' % (ctx.func.params[1], g.entry.frame.id)
     due_kind = None        # 'le': ts <= now is due;  'lt': only ts < now
     if spawns and not loops:
-        due_kind = _bisect_cut(e, rep, g, ctx, where)
+        due_kind = _takewhile_cut(e, rep, g, ctx, where, now)
+        if due_kind is None:
+            due_kind = _bisect_cut(e, rep, g, ctx, where)
         if due_kind is None:
             return
         _wait_ready_part(e, rep, due_kind)
@@ -568,6 +624,49 @@ def q6(e: Engine, rep: Report):
     _wait_ready_part(e, rep, due_kind)
 
 
+def _takewhile_cut(e: Engine, rep: Report, g, ctx, where, now):
+    """The due prefix taken with takewhile(lambda entry: PRED, self.queued):
+    PRED must compare the entry's timestamp (entry[0]) with `now`."""
+    kind = None
+    for n in g.of_kind('stmt'):
+        if not isinstance(n.ast, ast.Assign):
+            continue
+        lam = _takewhile_of_queued(n.ast.value, n.frame)
+        if lam is None:
+            continue
+        rep.evaluations += 1
+        arg = lam.args.args[0].arg if lam.args.args else None
+        t = lam.body
+        k = None
+        if isinstance(t, ast.Compare) and len(t.ops) == 1 and arg:
+            l, r = t.left, t.comparators[0]
+
+            def is_ts(x):
+                return isinstance(x, ast.Subscript) and \
+                    isinstance(x.value, ast.Name) and x.value.id == arg and \
+                    isinstance(x.slice, ast.Constant) and x.slice.value == 0
+
+            def is_now(x):
+                try:
+                    return canon(x, n.frame) == now
+                except Exception:
+                    return False
+            op = t.ops[0]
+            if is_ts(l) and is_now(r):
+                k = {ast.LtE: 'le', ast.Lt: 'lt'}.get(type(op))
+            elif is_now(l) and is_ts(r):
+                k = {ast.GtE: 'le', ast.Gt: 'lt'}.get(type(op))
+        if k is None:
+            rep.error('cannot decide the due predicate `%s` of the '
+                      'takewhile() cut in _check_ready' % ast.unparse(t))
+            return None
+        kind = k
+        rep.ok('Q6', where, 'dispatch only when due',
+               reason='takewhile() keeps the prefix with timestamp %s now'
+               % ('<=' if k == 'le' else '<'), loc=n.loc())
+    return kind
+
+
 def _bisect_cut(e: Engine, rep: Report, g, ctx, where):
     """The due prefix computed by bisection instead of a scan: the cut is
     bisect(self.queued, KEY).  Entries are (timestamp, id) pairs, so by tuple
@@ -613,10 +712,31 @@ def _wait_ready_part(e: Engine, rep: Report, due_kind):
              canon(n.ast.func.value, n.frame) == 'self.wake']
     if not waits:
         rep.error('anchor vanished: wake.wait in _wait_ready')
+    # the timeout may be computed first (`timeout = first - now` on one
+    # branch, `timeout = None` on the empty one): every definition that
+    # reaches the wait is one case, judged where it is made
+    cases = []
     for n in waits:
+        if not (n.ast.args or n.ast.keywords):
+            cases.append((n, None, n))
+            continue
+        a = n.ast.args[0] if n.ast.args else n.ast.keywords[0].value
+        ap = path_of(a, n.frame) if isinstance(a, ast.Name) else None
+        defs = common.reaching_defs(g, n, ap) if ap else []
+        if ap and defs and all(
+                d is not None and isinstance(d.ast, ast.Assign) and
+                isinstance(d.ast.targets[0], ast.Name) for d in defs):
+            for d in defs:
+                v = d.ast.value
+                if isinstance(v, ast.Constant) and v.value is None:
+                    cases.append((n, None, d))
+                else:
+                    cases.append((n, v, d))
+        else:
+            cases.append((n, a, n))
+    for n, a, site in cases:
         rep.evaluations += 1
-        if n.ast.args or n.ast.keywords:
-            a = n.ast.args[0] if n.ast.args else n.ast.keywords[0].value
+        if a is not None:
             ok = isinstance(a, ast.BinOp) and isinstance(a.op, ast.Sub) and \
                 isinstance(a.right, ast.Name) and \
                 a.right.id == ctx.func.params[1]
@@ -628,7 +748,7 @@ def _wait_ready_part(e: Engine, rep: Report, due_kind):
             # the due predicate of _check_ready and the sleep predicate
             # here leave no gap: an entry that is not dispatched is slept
             # for
-            st = fx.at(n) or frozenset()
+            st = fx.at(site) or frozenset()
             sleeps_gt = any(p and k.startswith(now + ' < ') for p, k in st)
             sleeps_ge = any(p and k.startswith(now + ' <= ') for p, k in st)
             if due_kind is not None and (sleeps_gt or sleeps_ge):
@@ -648,7 +768,11 @@ def _wait_ready_part(e: Engine, rep: Report, due_kind):
         else:
             inh = any(sc.kind == 'handler' and any(
                 'IndexError' in t for t in (sc.data['node'].extra.get(
-                    'types', []))) for sc in n.scopes)
+                    'types', []))) for sc in site.scopes)
+            # ... or on the branch on which the timetable tested empty
+            st = fx.at(site) or frozenset()
+            inh = inh or (False, 'self.queued') in st or \
+                (True, 'len(self.queued) == 0') in st
             rep.check(inh, 'Q6', where, 'unbounded sleep only on an empty '
                       'timetable', 'the scheduler waits without a timeout '
                       'although the timetable has entries: due messages '
@@ -663,7 +787,7 @@ def q8(e: Engine, rep: Report):
     not strand the message: every way out of that call still un-marks and
     re-queues the id."""
     ctx = e.method_ctx(QUEUE, '_retry_later')
-    g = e.build(ctx)
+    g = e.build(ctx, inline=common.queue_inline(e), max_depth=3)
     where = ctx.func.qname
     marks = [n for n in g.nodes if n.kind == 'call' and
              e.call_name(n) == 'set_recipients_delivered']
